@@ -111,7 +111,8 @@ def systematic_cb_cases(consts):
     out = []
     for opt, table in (("syslog_facility", consts["fac_to_int"]), ("syslog_level", consts["lvl_to_int"])):
         for n, _ in table:
-            for v in (n, n.lower(), n.capitalize(), "LOG_" + n, "log_" + n.lower(), "Log_" + n.capitalize()):
+            for v in (n, n.lower(), n.capitalize(), "LOG_" + n, "log_" + n.lower(), "Log_" + n.capitalize(),
+                      "SYSLOG_" + n, "xLOG_" + n, "local0,log_" + n.lower(), "LOG_LOG_" + n, n + "_LOG_", "LOG_ " + n):
                 out.append("\t".join(["cb", hexs(b"snoopy"), hexs(opt.encode()), hexs(v.encode("latin1"))]))
     # booleans are read by their first byte: every possible first byte (a fold like `c | 0x20` also maps 0x11 / 0x10 to '1' / '0')
     for b in range(1, 256):
